@@ -131,3 +131,33 @@ Print Assumptions C12_expm1S_take.
 Print Assumptions C12_expS_D1.
 Print Assumptions C12_mulS_D1.
 Print Assumptions C12_divS_D1.
+
+(* ---- whole programs, forward AND reverse sweep, for the executable tracer instance (TracerExec.v): the first D' coefficients of every
+   result computed with D >= D' coefficients are the results computed from inputs, constants and seeds truncated to D' coefficients *)
+From AlgoV Require Import Tracer TracerExec TracerRefine TracerPrefix.
+Theorem C12_program_eval_prefix (K : fieldType) (D D' : nat) (prog : seq (instr (seq K))) ret (xs : seq (seq K)) :
+  (0 < D')%N -> (D' <= D)%N -> all (@instr_ok K D) prog -> sized D xs ->
+  X_eval_out D' (map (instrT D') prog) ret (map (tk D') xs) = map (tk D') (X_eval_out D prog ret xs).
+Proof. move=> *; exact: X_eval_prefix. Qed.
+Theorem C12_program_replay_prefix (K : fieldType) (D D' : nat) (t : tape (seq K)) outs (xs : seq (seq K)) :
+  (0 < D')%N -> (D' <= D)%N -> all (@node_ok K D) t -> sized D xs ->
+  X_replay_out D' (map (nodeT D') t) outs (map (tk D') xs) = map (tk D') (X_replay_out D t outs xs).
+Proof. move=> *; exact: X_replay_prefix. Qed.
+Theorem C12_program_tangent_prefix (K : fieldType) (D D' : nat) (t : tape (seq K)) outs (xs dxs : seq (seq K)) :
+  (0 < D')%N -> (D' <= D)%N -> all (@node_ok K D) t -> sized D xs -> sized D dxs ->
+  X_tangent_out D' (map (nodeT D') t) outs (map (tk D') xs) (map (tk D') dxs) = map (tk D') (X_tangent_out D t outs xs dxs).
+Proof. move=> *; exact: X_tangent_prefix. Qed.
+(* the reverse sweep: adjoint coefficients of order < D' depend only on coefficients of order < D' of inputs and seeds *)
+Theorem C12_program_adjoint_prefix (K : fieldType) (D D' : nat) (t : tape (seq K)) outs (xs ybars : seq (seq K)) :
+  (0 < D')%N -> (D' <= D)%N -> all (@node_ok K D) t -> sized D xs -> sized D ybars ->
+  X_grad D' (map (nodeT D') t) outs (map (tk D') xs) (map (tk D') ybars) = map (tk D') (X_grad D t outs xs ybars).
+Proof. move=> *; exact: X_grad_prefix. Qed.
+Theorem C12_program_D1 (K : fieldType) (D : nat) (prog : seq (instr (seq K))) ret (xs : seq (seq K)) : (0 < D)%N ->
+  all (@instr_ok K D) prog -> sized D xs ->
+  [seq take 1 y | y <- X_eval_out D prog ret xs] = X_eval_out 1 (map (instrT 1) prog) ret [seq take 1 x | x <- xs].
+Proof. exact: X_eval_D1. Qed.
+Print Assumptions C12_program_eval_prefix.
+Print Assumptions C12_program_replay_prefix.
+Print Assumptions C12_program_tangent_prefix.
+Print Assumptions C12_program_adjoint_prefix.
+Print Assumptions C12_program_D1.
